@@ -4,7 +4,8 @@
    are unique, CSystem is in the constraint list of s, no store declares a field named isSystem),
    every state, every fuel, every context. *)
 From Coq Require Import List NArith Bool.
-From Storage Require Import Base.Bytes Store.Model Store.SystemProofs Store.SystemStrip Store.SystemMixed.
+From Storage Require Import Base.Bytes Store.Model Store.SystemProofs Store.SystemStrip Store.SystemMixed
+  Store.SystemChild Store.SystemRestore.
 Import ListNotations.
 
 (* (1) Create with the system flag, Update and DeleteById of an entity whose STORED flag is set - entered
@@ -156,3 +157,102 @@ Theorem mixed_ops_preserve_flag : forall sch s fuel vs j ops stev rs stev',
   get_field sch (fst stev') s j isSystemF = get_field sch (fst stev) s j isSystemF.
 Proof. exact mixed_ops_preserve_flag_lemma. Qed.
 Print Assumptions mixed_ops_preserve_flag.
+
+(* (5) the constraint registered on a CHILD store c only (Store/SystemChild.v; wf_system_child_b: c is a child store of an
+   existing root store, CSystem is in the constraint list of c, c does not declare a field named isSystem - the flag is read
+   from the root entity bucket through the symbol granted by the parent).  What it protects are the system entities OF THE CHILD
+   STORE ([child_sys_target]): create with the flag through c; update - through c, or through the root store when c is the
+   child store that holds the entity - of an entity whose stored flag is set and which has data in c; DeleteById through ANY
+   store of the family (root, c, a sibling child store) - and therefore by any cascade - of an entity whose stored flag is set
+   and which c can load (it has data in c, or c is Extended).  In every state, for every fuel. *)
+Theorem child_system_op_refused : forall sch c fuel oc stev o,
+  wf_system_child_b sch c = true -> oc_sys oc = false -> child_sys_target sch c (fst stev) o ->
+  exists k, run_op sch fuel oc stev o = Err k.
+Proof. exact child_run_op_refuses_lemma. Qed.
+Print Assumptions child_system_op_refused.
+
+Theorem child_system_requires_system_ctx : forall sch c fuel st t pre o post stev',
+  wf_system_child_b sch c = true -> tx_sys t = false ->
+  tx_ops t = pre ++ o :: post ->
+  snd (run_ops sch fuel (mkOctx (tx_sys t) (tx_vetoes t)) (st, []) pre) = Ok stev' ->
+  child_sys_target sch c (fst stev') o ->
+  (exists k, run_op sch fuel (mkOctx (tx_sys t) (tx_vetoes t)) stev' o = Err k) /\
+  (exists rs, run_tx sch fuel st t = (rs, false, st, [])).
+Proof. exact child_system_requires_system_ctx_lemma. Qed.
+Print Assumptions child_system_requires_system_ctx.
+
+(* (5') the flag part of the property does not depend on where the constraint is registered (wf_flag_b: s is an existing root
+   store, no store declares a field named isSystem): (2a)-(2c) for the family of any root store *)
+Theorem create_stores_requested_flag_any : forall sch s oc st evs s0 i sys fv sv st' evs',
+  wf_flag_b sch s = true -> root_of sch s0 = s ->
+  op_create sch oc (st, evs) s0 i sys fv sv = Ok (st', evs') ->
+  get_field sch st' s i isSystemF = if sys then FBool true else FAbsent.
+Proof. exact create_flag_any_lemma. Qed.
+Print Assumptions create_stores_requested_flag_any.
+
+Theorem op_preserves_flag_any : forall sch s fuel oc st evs o st' evs' j,
+  wf_flag_b sch s = true ->
+  run_op sch fuel oc (st, evs) o = Ok (st', evs') ->
+  present sch st s j = true -> present sch st' s j = true ->
+  get_field sch st' s j isSystemF = get_field sch st s j isSystemF.
+Proof. exact op_preserves_flag_any_lemma. Qed.
+Print Assumptions op_preserves_flag_any.
+
+Theorem system_flag_immutable_any : forall sch s fuel j txs st,
+  wf_flag_b sch s = true ->
+  alive_txs sch s fuel j st txs ->
+  get_field sch (run_txs sch fuel st txs) s j isSystemF = get_field sch st s j isSystemF.
+Proof. exact flag_immutable_any_lemma. Qed.
+Print Assumptions system_flag_immutable_any.
+
+(* (6) histories in which the database content is replaced UNDERNEATH the store objects (Store/SystemRestore.v): a restore step
+   [HRestore k] makes the state what it was after the first k steps (snapshot + Db.RestoreSnapshot / RestoreFromReader, a second
+   node initialised on an empty database that receives the snapshot, a swapped file, a restart).
+   (6a) every state such a history passes through is reachable by transactions alone, and the state it ends in is the state
+   after an explicit restore-FREE history made of its own steps - so every statement above about states, operations,
+   transactions and histories of transactions covers histories with restore steps. *)
+Theorem restore_states_reachable : forall sch fuel st0 steps,
+  Forall (reach sch fuel st0) (run_hist sch fuel st0 steps).
+Proof. exact hist_reachable. Qed.
+Print Assumptions restore_states_reachable.
+
+Theorem restore_equals_restore_free_history : forall sch fuel st0 steps,
+  hist_final sch fuel st0 steps = run_plain sch fuel st0 (restore_free steps) /\
+  Forall (fun h => is_restore h = false /\ In h steps) (restore_free steps).
+Proof. exact hist_restore_free. Qed.
+Print Assumptions restore_equals_restore_free_history.
+
+Theorem restore_free_tx_history_is_run_txs : forall sch fuel l st0,
+  forallb is_tx l = true -> run_plain sch fuel st0 l = run_txs sch fuel st0 (txs_of l).
+Proof. exact run_plain_txs. Qed.
+Print Assumptions restore_free_tx_history_is_run_txs.
+
+(* (6b) a restore step brings back exactly the k-th state - entities, fields, flags *)
+Theorem restore_brings_back : forall sch fuel st0 steps k,
+  (k < length (run_hist sch fuel st0 steps))%nat ->
+  hist_final sch fuel st0 (steps ++ [HRestore k]) = nth k (run_hist sch fuel st0 steps) st0.
+Proof. exact restore_brings_back_lemma. Qed.
+Print Assumptions restore_brings_back.
+
+(* (6c) the rules hold for the entities present NOW, however they got there: after ANY history - restores included - a
+   transaction of an ordinary context that reaches an operation on a system entity (of a root store carrying the constraint,
+   resp. of a child store carrying it) is refused and leaves the content as it is *)
+Theorem system_rules_hold_after_restore : forall sch s fuel st0 steps t pre o post stev',
+  wf_system_b sch s = true -> tx_sys t = false ->
+  tx_ops t = pre ++ o :: post ->
+  snd (run_ops sch fuel (mkOctx (tx_sys t) (tx_vetoes t)) (hist_final sch fuel st0 steps, []) pre) = Ok stev' ->
+  sys_target sch s (fst stev') o ->
+  exists rs, fst (hist_step sch fuel st0 (run_hist sch fuel st0 steps) (HTx t)) =
+             (rs, false, hist_final sch fuel st0 steps, []).
+Proof. exact restore_then_refused_lemma. Qed.
+Print Assumptions system_rules_hold_after_restore.
+
+Theorem child_system_rules_hold_after_restore : forall sch c fuel st0 steps t pre o post stev',
+  wf_system_child_b sch c = true -> tx_sys t = false ->
+  tx_ops t = pre ++ o :: post ->
+  snd (run_ops sch fuel (mkOctx (tx_sys t) (tx_vetoes t)) (hist_final sch fuel st0 steps, []) pre) = Ok stev' ->
+  child_sys_target sch c (fst stev') o ->
+  exists rs, fst (hist_step sch fuel st0 (run_hist sch fuel st0 steps) (HTx t)) =
+             (rs, false, hist_final sch fuel st0 steps, []).
+Proof. exact restore_then_refused_child_lemma. Qed.
+Print Assumptions child_system_rules_hold_after_restore.
